@@ -100,7 +100,7 @@ func c11Parse(toks []string) (*c11Round, error) {
 		case name[0] == 'C':
 			for _, x := range s[1:] {
 				n, err := strconv.Atoi(x)
-				if err != nil || n < 0 || n >= len(c11Targets) {
+				if err != nil || n < 0 || n >= len(c11Targets)+c11NV {
 					return nil, fmt.Errorf("bad target")
 				}
 				th.targets = append(th.targets, n)
@@ -111,7 +111,8 @@ func c11Parse(toks []string) (*c11Round, error) {
 			}
 			f, e1 := strconv.Atoi(s[2])
 			v, e2 := strconv.Atoi(s[4])
-			if e1 != nil || e2 != nil || f < 0 || f >= len(c11Targets) || (s[3] != "ret" && s[3] != "cb" && s[3] != "cbo" && s[3] != "tab") {
+			if e1 != nil || e2 != nil || f < 0 || f >= len(c11Targets)+c11NV || (s[3] != "ret" && s[3] != "cb" && s[3] != "cbo" && s[3] != "tab") ||
+				(f >= len(c11Targets) && (s[3] != "tab" || name[0] != 'S')) {
 				return nil, fmt.Errorf("bad mock")
 			}
 			th.ops = append(th.ops, c11Op{kind: "mock", f: f, rk: s[3], v: v})
@@ -140,6 +141,10 @@ type c11Ev struct {
 }
 
 func c11Mock(b *Builder, op c11Op) {
+	if op.f >= len(c11Targets) { // variadic steady target: table keyed on fixed parameters + variadic elements
+		c11VarMock(b, op.f-len(c11Targets), op.v)
+		return
+	}
 	f := c11Targets[op.f]
 	switch op.rk {
 	case "ret":
@@ -162,6 +167,9 @@ func c11Call(f int, a int) (res string) {
 			res = "P"
 		}
 	}()
+	if f >= len(c11Targets) {
+		return strconv.Itoa(c11VarCall(f-len(c11Targets), a))
+	}
 	return strconv.Itoa(c11Targets[f](a))
 }
 
@@ -211,7 +219,12 @@ func c11Raw(addr uintptr, n int) []byte {
 	return *(*[]byte)(unsafe.Pointer(&reflect.SliceHeader{Data: addr, Len: n, Cap: n}))
 }
 
-func c11Entry(i int) uintptr { return reflect.ValueOf(c11Targets[i]).Pointer() }
+func c11Entry(i int) uintptr {
+	if i >= len(c11Targets) {
+		return reflect.ValueOf(c11VarTargets[i-len(c11Targets)]).Pointer()
+	}
+	return reflect.ValueOf(c11Targets[i]).Pointer()
+}
 
 // TestVerifC11Child runs one round in this process and prints the observation on stdout as "OBS <text>".
 func TestVerifC11Child(t *testing.T) {
@@ -380,6 +393,14 @@ func TestVerifC11Child(t *testing.T) {
 		if c11Targets[i](2) != 2*7+i {
 			final += fmt.Sprintf(",beh%d", i)
 			break
+		}
+	}
+	for v := 0; v < c11NV; v++ {
+		for a := 1; a <= 5; a++ {
+			if c11VarCall(v, a) != c11VarOrig(v, a) {
+				final += fmt.Sprintf(",vbeh%d", v)
+				a = 6
+			}
 		}
 	}
 	// measured overlap: builder ops whose [start,end] intersects an op of another builder
